@@ -870,6 +870,9 @@ func writeLock(chartpath string, lock *chart.Lock, legacyLockfile bool) error {
 		lockfileName = "requirements.lock"
 	}
 	dest := filepath.Join(chartpath, lockfileName)
+	if fi, err := os.Lstat(dest); err == nil && fi.Mode()&os.ModeSymlink != 0 {
+		return errors.Errorf("refusing to write the lock file through the symbolic link %s", dest)
+	}
 	return os.WriteFile(dest, data, 0644)
 }
 
